@@ -699,10 +699,9 @@ pub fn run_zoned(a: &Args, which: &str) {
     let quick = a.quick();
     for (zi, (az, tz, src)) in loaded.iter().enumerate() {
         out.soft_cut(9_000);
-        out.emit(zone_slot(az, &src.class, 1));
         // second zone for zone changes
         let (az2, tz2, src2) = &loaded[(zi * 7 + 3) % loaded.len()];
-        out.emit(zone_slot(az2, &src2.class, 2));
+        out.set_header(vec![zone_slot(az, &src.class, 1), zone_slot(az2, &src2.class, 2)]);
         let insts = instants(a, az, &mut rng, if quick && which != "c09z" { 36 } else if quick { 120 } else { 400 });
         match which {
             "c06" => {
@@ -816,8 +815,7 @@ pub fn run_zoned(a: &Args, which: &str) {
                     }
                     // that block fills several shards: the zone's own events start a new one, behind their zone events
                     out.cut();
-                    out.emit(zone_slot(az, &src.class, 1));
-                    out.emit(zone_slot(az2, &src2.class, 2));
+                    out.set_header(vec![zone_slot(az, &src.class, 1), zone_slot(az2, &src2.class, 2)]);
                 }
                 for &(ts, cls) in &insts {
                     let zr = Ref::Z(Zoned::new(ts, tz.clone()));
